@@ -43,7 +43,7 @@ def cases(tier, seed):
         for c in designs.seq_cases():
             out.append(dict(c, K=3, cfg='sym'))
             out.append(dict(c, K=3, cfg='reset', default_value=0))
-        for c in designs.misc_cases() + designs.dup_cases()[:6] + designs.constop_cases()[:30]:
+        for c in designs.misc_cases() + designs.dup_cases()[:6] + designs.constop_cases()[:30] + designs.carg_cases():
             out.append(dict(c, K=3, cfg='sym'))
     else:
         for c in designs.op_cases(designs.WT, mul_max=16):
@@ -60,7 +60,7 @@ def cases(tier, seed):
             out.append(dict(c, K=6, cfg='sym'))
             out.append(dict(c, K=6, cfg='reset', default_value=0))
             out.append(dict(c, K=6, cfg='reset', default_value=1))
-        for c in designs.misc_cases() + designs.dup_cases() + designs.constop_cases():
+        for c in designs.misc_cases() + designs.dup_cases() + designs.constop_cases() + designs.carg_cases((1, 3, 8)):
             out.append(dict(c, K=4, cfg='sym'))
             out.append(dict(c, K=4, cfg='reset', default_value=1))
     return out
